@@ -128,7 +128,7 @@ class Report:
 
     def machinery(self, msg):
         self.machinery_errors.append(msg)
-        print(f"MACHINERY-FAILURE property={self.prop}: {msg[:2000]}", file=sys.stderr, flush=True)
+        print(f"MACHINERY-FAILURE property={self.prop}: {msg[:3500]}", file=sys.stderr, flush=True)
 
     # -- finish ----------------------------------------------------------------------------
     def finish(self, rule, level="model_checking", assumptions=None, extra=None):
